@@ -220,6 +220,16 @@ def parse_fl(s):
 def parse_cfg(line):
     return dict(t.split("=", 1) for t in line.split()[1:] if "=" in t)
 
+def release_expect(kind, pal, pdi, pfl, ms_, boff_, bcap_):
+    """the release rule: what dropping a non-detached handle with buffer extent [boff_, boff_+bcap_) does to
+    (allocated, discarded, free list as a set); returns (al, di, sorted list)"""
+    pad_ = (-boff_) % 8
+    if pal == boff_ + bcap_:
+        return (boff_, pdi, sorted(pfl))
+    if kind == "none" or bcap_ <= pad_ + 8 or bcap_ - pad_ - 8 < ms_:
+        return (pal, (pdi + bcap_) % U32, sorted(pfl))
+    return (pal, (pdi + 8) % U32, sorted(pfl + [(boff_ + pad_, bcap_ - pad_ - 8)]))
+
 def monitor_case(ops, obs, which):
     """Evaluate the executable oracles `which` (set of property ids) on one case of an
     implementation trace. Returns list of (property, signature, message, line_index)."""
@@ -268,10 +278,24 @@ def monitor_case(ops, obs, which):
             if fstate.get("truncated"):
                 V("C18", "file-lags-after-truncate", f"after a truncate of this file-backed arena the file is no longer the arena: reopening it as it is now gives a different state (open: {o.get('cr')})", i)
                 V("C15", "file-lags-after-truncate", f"after a truncate of this file-backed arena the file is no longer the arena: reopening it as it is now gives a different state (open: {o.get('cr')})", i)
+        if op == "close_last" and r == "ok":
+            h_ = int(t[1])
+            ent_ = live.get(h_)
+            if h_ in dhandles:
+                dhandles.discard(h_); dcount += 1      # dropped, not detached: its value is dropped
+            exp_ = None
+            if ent_ and fstate["mode"] in (None, "mut") and None not in parse_fl(prev.get("fl")) and not rewound:
+                e_ = release_expect(kind, int(prev["al"]), int(prev["di"]), parse_fl(prev.get("fl")), int(prev.get("ms", "0")), ent_[2], ent_[3])
+                exp_ = {"al": str(e_[0]), "di": str(e_[1]), "ms": prev.get("ms"), "flset": e_[2], "last_owner": ops[i].strip()}
+            if h_ in live: live.pop(h_)
+            op = "close"                                   # the rest is an ordinary close
+            fstate["expect_after_last"] = exp_
         if op == "close" and r == "ok":
             fstate["closed"] = True
             if fstate["mode"] in (None, "mut"):   # only a shared writable session leaves its state in the file
                 fstate["before_close"] = prev
+                if t[0] == "close_last":
+                    fstate["before_close"] = fstate.get("expect_after_last")
             # a file marked remove-on-drop disappears exactly when the last arena value goes (here: at `close`), in every mode
             if fstate.get("remove") and o.get("fh") != "none":
                 V("C13", "remove-on-drop-ignored", f"close after remove_on_drop(true) in a {fstate['mode'] or 'creating'} session: the file is still there", i)
@@ -332,6 +356,12 @@ def monitor_case(ops, obs, which):
                 if fstate["badfile"] is True and not (ro_mode and fstate["kind_ok_ro"]):
                     V("C09", "accepts-bad-file", f"{ops[i].strip()} succeeded on a file with a corrupted identification / too short", i)
                 b = fstate["before_close"]
+                if b is not None and "flset" in b and fstate["badfile"] is False:
+                    # the arena ended with an owned handle as its last owner: the file must show that handle's extent released
+                    got = (o.get("al"), o.get("di"), sorted(x_ for x_ in parse_fl(o.get("fl")) if x_))
+                    if got != (b["al"], b["di"], b["flset"]):
+                        V("C13", "last-owner-release", f"{b['last_owner']} (the owned handle outlived every arena value) should leave (al,di,fl) = {(b['al'], b['di'], b['flset'])}; the reopened file has {got}", i)
+                    b = None
                 if b is not None and fstate["badfile"] is False and int(o["al"]) <= int(o["cp"]) and int(b["al"]) <= int(b["cp"]):
                     for k in ("al", "di", "ms", "fl", "ma"):
                         if o.get(k) != b.get(k):
@@ -398,7 +428,10 @@ def monitor_case(ops, obs, which):
                         if o.get("am", "0") != "0":
                             V("C03", "addr-align", f"alloc_aligned<{A},{S}>({N}): address misaligned by {o.get('am')} (within the alignment the arena guarantees)", i)
                 else:
-                    if op.startswith("alloc_d"):
+                    if op.startswith("alloc_z"):
+                        A, S = 1, 0
+                        dcount += 1     # the zero-sized value is consumed (dropped) by `write`; its handle drops nothing later
+                    elif op.startswith("alloc_d"):
                         A, S = 8, 8
                         dhandles.add(h)
                     else:
